@@ -170,6 +170,18 @@ func runC15(c *eng.Ctx) {
 				"every path from the "+map[bool]string{true: "request boundary (Recv)", false: "handler entry"}[len(recvs) > 0]+" crosses the authorisation ok-edge first",
 				fmt.Sprintf("effect reachable without passing the authorisation ok-edge (path %s): %s", w, reason))
 		})
+		// the call is rejected: a unary handler reports success only over the ok-edge (a handler whose body has no effects —
+		// a metadata query — is otherwise not constrained at all by the rule above)
+		if len(recvs) == 0 {
+			for _, r := range eng.Returns(fn) {
+				vals := eng.RetVals(r)
+				if len(vals) == 0 || !eng.NilConst(vals[len(vals)-1]) {
+					continue
+				}
+				g, w := eng.GuardedBy(fn, r, okEdges)
+				c.Check(g, "success return of "+ir.FuncKey(fn), c.Pos(r), "reached only over the authorisation ok-edge", "the handler can return success although ensureAuthorizationPermission refused the call (path "+w.String()+"): the unauthorised call is answered instead of rejected")
+			}
+		}
 	}
 	// handlers without authz are reported by R15.1 only (one finding per handler, not one per effect)
 	c.Floor(14)
@@ -313,6 +325,9 @@ func runC15(c *eng.Ctx) {
 
 	// ---- R15.6 config key agreement
 	runConfigKeyAgreement(c, "R15.6")
+	// ---- R15.8 (shared) the configuration keys this property's switches hang on reach their fields
+	ruleConfigWiring(c, "R15.8")
+
 }
 
 func isReqValue(v ssa.Value) bool {
